@@ -400,6 +400,10 @@ class Report(object):
                        'no_longer_checks': [{'what': w, 'detail': d} for w, d in self.unexplained[:50]],
                        'seed': self.seed, 'tier': self.tier}, open(path, 'w'), indent=1, default=repr)
             lines.append('VIOLATION property=%s replay=%s no-failing-input-found' % (self.prop, path))
+        if rc == 0:
+            stale = os.path.join(ROOT, 'replays', '%s-%s-%d.json' % (self.prop, self.tier, self.seed))
+            if os.path.exists(stale):
+                os.remove(stale)
         ev = {
             'property_id': self.prop, 'tier': self.tier, 'seed': self.seed, 'level': 'proof',
             'coverage': dict({
